@@ -22,7 +22,8 @@ parameters); one client reader per attempt.
 | the helper **reports an already-present file without re-uploading** it | `present_not_reuploaded` (results, no upload helper, no share write, same caps) | counters + storage write calls on the real servers |
 | "already present" only for a file that is present | `present_implies_all_shares` (every one of the N share numbers exists, however many duplicates), `absent_needs_upload` | pre-existing-copy scenarios on twin grids (`presentp` driver line) |
 | … also when the *same helper* placed the file earlier and shares were lost since (no memory) | `present_answer_reflects_current_grid` (every history of placements / losses / queries; + `memory_counterexample`: seeded C44-e) | re-upload scenarios on twin grids with one reused Helper (`hist` driver line; share sets, download) |
-| several clients uploading the same storage index at once; helper crash in the middle of an append; timing | not covered | not covered (one reader per attempt) |
+| … also when the helper process dies and the tail of the partial ciphertext file is lost | same theorems: `Fault.crash i keep` (only the first `keep` bytes survive) is one of the disturbances they quantify over; `incoming_file_is_prefix` | harness truncates the partial file and restarts the Helper between attempts (`xI.K` in the `fetch` driver line) |
+| several clients uploading the same storage index at once (reader pool of `AskUntilSuccessMixin`); wall-clock timing | not covered | not covered (one reader per attempt) |
 -/
 namespace Tahoe.C44
 open Tahoe.Helper
@@ -43,6 +44,15 @@ example : runAttempts 3 [1, 2, 3, 4, 5, 6, 7, 8, 9, 10] ⟨none, none⟩ [.read 
     (traceAttempts 3 [1, 2, 3, 4, 5, 6, 7, 8, 9, 10] ⟨none, none⟩ [.read 2, .read 1, .encode, .none]).map
       (fun x => (x.1.incoming.map List.length, x.1.encoding.map List.length, x.2))
       = [(some 6, none, false), (some 9, none, false), (none, some 10, false), (none, none, true)] := by
+  decide
+
+/-- a helper crash that loses the tail of the partial file (appended but not yet on disk) is one of the
+disturbances `resumed_fetch_eq_ciphertext` quantifies over: here the helper dies at its 3rd read with only 4 of
+the 6 bytes fetched so far surviving, then at its 2nd read with nothing new surviving, then runs clean -/
+example : runAttempts 3 [1, 2, 3, 4, 5, 6, 7, 8, 9, 10] ⟨none, none⟩ [.crash 2 4, .crash 1 4, .none]
+      = (⟨none, none⟩, some [1, 2, 3, 4, 5, 6, 7, 8, 9, 10]) ∧
+    (traceAttempts 3 [1, 2, 3, 4, 5, 6, 7, 8, 9, 10] ⟨none, none⟩ [.crash 2 4, .crash 1 4, .none]).map
+      (fun x => (x.1.incoming.map List.length, x.2)) = [(some 4, false), (some 4, false), (none, true)] := by
   decide
 
 /-- at every moment the partial file is a prefix of the ciphertext and a complete file *is* the
